@@ -1484,7 +1484,9 @@ Proof.
   - destruct k; discriminate.
   - unfold fs_open.
     destruct (is_nil (tl rel)); [discriminate|].
-    destruct (negb (valid_name (tl rel))).
+    destruct (negb (utf8_valid (tl rel))).
+    { destruct (match split_slash (tl rel) with f :: _ :: _ => _ | _ => false end); discriminate. }
+    match goal with |- context [if ?b then (if _ then OpNotExist else OpError) else _] => destruct b end.
     { destruct (match split_slash (tl rel) with f :: _ :: _ => _ | _ => false end); discriminate. }
     destruct (fs_lookup t root (tl rel)) as [[d| |]|] eqn:E.
     + destruct (last_is_slash up).
